@@ -53,7 +53,11 @@ RULE = ('scope stacks: DictScope root (values = small integers / dyadic rational
         'numpy.int64: must be equal), a copy with one / all mapping constants turned into floats, a scope of ANOTHER '
         'class with the same mapping (inner scope, empty MappedScope layer, JointScope of all names, RangeScope with a '
         'no-op index, DictScope of the denotation), and value / volatile / index / expression / dropped-entry variants; '
-        'plus 60 random stacks x 4 such variants.  DictScope roots come from DictScope(), from_mapping and from_kwargs.')
+        'plus 60 random stacks x 4 such variants.  DictScope roots come from DictScope(), from_mapping and from_kwargs.  '
+        'Round 5, deterministic: JointScope that takes a name n from a sub scope in which n is NOT volatile while another '
+        'sub scope of the same joint scope has a volatile parameter called n (constant marked volatile there / derived from '
+        'one / loop index), both insertion orders, bare / below a MappedScope / built by VolatileValue.operation, with '
+        'change_constants on either root.  Must-be-equal twins inside histories are judged by py_spec.')
 TRUSTED = [
     'Coq 8.16.1 kernel + vm_compute (no native_compute)',
     'sympy / qupulse.expressions evaluate + - x /const Min Max over small integers and dyadic rationals exactly; '
@@ -2021,7 +2025,11 @@ MANIFEST = {
                   'number kind of expression constants (sympy-structural Expression equality, scopes of different classes '
                   'unequal) is proved to refine the value-based one strictly, to be an equivalence, to imply equal kind-aware '
                   'hashes, and change_constants '
-                  'to yield a scope equal in this sense to the one rebuilt from the changed constants; the model is tied '
+                  'to yield a scope equal in this sense to the one rebuilt from the changed constants; the scope '
+                  'change_constants returns is proved to be the unique solution of a relational specification of "built from '
+                  'the changed constants" that shares no definition with the model (round 5), and scopes the modelled / '
+                  'kind-aware == calls equal are proved to provide the same names, to report the same volatile parameters '
+                  'and to denote the same mapping; the model is tied '
                   'to the code by an '
                   'exact correspondence check of operation histories on one object graph (tree model, cache-free paths '
                   'and heap model) and of == / != / hash on twin, retyped and cross-class scopes.',
@@ -2029,7 +2037,10 @@ MANIFEST = {
                   '(divisors +-2^k), sympy\'s canonical form of an expression text, frozendict, harness. Dependence is '
                   'syntactic (over-approximation proved); concrete hash values are not modelled (eq => equal hash is proved '
                   'for every admissible leaf hash / frozenset combiner and observed on the code); object identities of '
-                  'returned scopes are not observed.',
+                  'returned scopes are not observed. The specification oracle check_spec uses Spec.v / SpecChange.v only '
+                  '(shared with the model: data types, association-list helpers, expression evaluation and free variables). '
+                  'The history / cache / heap theorems are refinement links between operational models; the link to the '
+                  'specification is C13_views, C13_volatile, C13_change_meaning. See notes/C13.md, Clause map.',
     'technique': 'Coq proof (induction over the scope stack, cache-refinement invariant on tree and heap, substitution '
                  'lemma, permutation argument for hashes) + '
                  'correspondence check',
